@@ -548,3 +548,12 @@ func vCopyInto(dst, src reflect.Value, seen map[uintptr]reflect.Value) {
 }
 
 func vMapOrderOff() {}
+
+// primitive verdicts (uninterpreted for the solver; the real primitives natively)
+func vEdVerdict(pub ed25519.PublicKey, msg, sig []byte) bool {
+	return len(pub) == ed25519.PublicKeySize && ed25519.Verify(pub, msg, sig)
+}
+
+func vRSAVerdict(pub *rsa.PublicKey, hash int, digest, sig []byte) bool {
+	return rsa.VerifyPSS(pub, crypto.Hash(hash), digest, sig, &rsa.PSSOptions{SaltLength: rsa.PSSSaltLengthEqualsHash}) == nil
+}
